@@ -10,6 +10,7 @@ import Driver.NamesMode
 import Driver.PipeMode
 import Driver.ProofMode
 import Driver.FrontMode
+import Driver.StoreMode
 /-! `osmt-model <mode> <file>`: line-protocol driver around the executable models and kernels. -/
 def main (args : List String) : IO UInt32 := do
   match args with
@@ -67,6 +68,10 @@ def main (args : List String) : IO UInt32 := do
   | ["front", path] =>
     let txt ← IO.FS.readFile path
     for l in Driver.runFront (txt.splitOn "\n") do IO.println l
+    return 0
+  | ["store", path] =>
+    let txt ← IO.FS.readFile path
+    for l in Driver.runStore (txt.splitOn "\n") do IO.println l
     return 0
   | ["fk", path] =>
     let txt ← IO.FS.readFile path
